@@ -176,10 +176,10 @@ def build(desc, detour=False, extra_node="zz9", relabel=None):
                 h.add_edge(tuple(R(x) for x in e[1]), e[0], **kw)
             else:
                 h.add_edge(tuple(R(x) for x in e[0]), e[1], **kw)
-    if detour == 2 and len(desc["edges"]) >= 2:
-        # churn: remove the first and the last record, then insert both again (with weight and metadata):
-        # internal ids are handed out again after removals
-        picks = [0, len(desc["edges"]) - 1]
+    if (detour == 2 or isinstance(detour, tuple)) and len(desc["edges"]) >= 2:
+        # churn: remove two records (first and last, or the given pair in that order), then insert both again (with weight
+        # and metadata): internal ids are handed out again after removals
+        picks = [0, len(desc["edges"]) - 1] if detour == 2 else [detour[1], detour[2]]
         for i in picks:
             e = desc["edges"][i]
             if k == "H":
